@@ -1038,6 +1038,9 @@ class Emitter:
         if op in ("<<", ">>"):
             if a.isdigit() and b.isdigit() and int(b) < 64:
                 return str((int(a) << int(b)) % 2 ** 64 if op == "<<" else int(a) >> int(b)), ta
+            if ta == U32 and b.isdigit() and int(b) < 32:
+                # a `u32` shifted by a literal below its width: no panic in any build; `<<` drops the bits above bit 31
+                return ("((%s <<< %s) %% 4294967296)" % (a, b) if op == "<<" else "(%s >>> %s)" % (a, b)), U32
             fn = {(U, "<<"): "shlU", (U, ">>"): "shrU", (W, "<<"): "shlW", (W, ">>"): "shrW"}.get((ta, op))
             if not fn or tb not in (U, U32):
                 raise Unsupported("shift of %r by %r" % (ta, tb))
@@ -1221,6 +1224,10 @@ class Emitter:
         if isinstance(ty, str) and (name, ty) in prim and not args:
             tpl, rty = prim[(name, ty)]
             return tpl % v, rty
+        if ty == W and name == "overflowing_mul" and len(args) == 1:
+            # `a.overflowing_mul(b)` = (the product modulo 2^64, whether it overflowed), in every build
+            a, _ = self.expr(args[0], pre, W)
+            return "(%s * %s, decide (%s.toNat * %s.toNat ≥ 2 ^ 64))" % (v, a, v, a), ("T", [W, B])
         if ty == U and name in ("checked_sub", "checked_add", "saturating_add", "saturating_sub"):
             a, _ = self.expr(args[0], pre, U)
             fn = {"checked_sub": ("(checkedSub %s %s)", ("O", U)), "checked_add": ("(checkedAdd %s %s)", ("O", U)),
@@ -1279,9 +1286,11 @@ class Emitter:
             raise Unsupported("call to %s is not in the call table" % key)
         if ent.get("load"):
             # `T::load(reader)?` — the callee returns the value and the rest of the stream
-            t = self.fresh()
             rd = self.cfg["reader"]
-            pre.append("let (%s, %s) ← %s" % (t, rd, ent["lean"].format(rd)))
+            atys = ent.get("args") or []
+            more = [self.expr(a, pre, atys[i + 1] if i + 1 < len(atys) else U)[0] for i, a in enumerate(args[1:])]  # after the reader
+            t = self.fresh()
+            pre.append("let (%s, %s) ← %s" % (t, rd, ent["lean"].format(rd, *more)))
             return t, ent["ret"]
         vals = []
         if recv_val is not None:
